@@ -220,7 +220,9 @@ class SeededApplication:
                     unk = [v for v in vs if v[0] is None]
                     res.append((False, bad[0][1], line_) if bad else ((None, unk[0][1], line_) if unk else (True, vs[0][1], line_)))
                 return res
+        self.fwd._undecided_guards = []
         removed, narrow = self.fwd.guard_edges(fa, member, needed)
+        undecided_guards = list(self.fwd._undecided_guards)
         # aliases: a loop over self.<list> that holds this attribute
         alias_lists = [lst for lst, attrs in self.own.types.aliases(C).items() if member.kind == "attr"
                        and member.attr in attrs]
@@ -296,6 +298,9 @@ class SeededApplication:
                 # inlined (a public helper of another module): it may inject there - not decided here
                 res.append((None, f"{member} is handed to a package function before line {line}; whether that function injects "
                                   f"the per-sample generator is not analysed", line))
+            elif undecided_guards and not narrow:
+                res.append((None, f"the injection before line {line} is guarded by {member}.{undecided_guards[0][1]}, a predicate whose "
+                                  f"value for the classes that hold a generator is not decided by the class alone", line))
             else:
                 p = cfg.path_avoiding(start, site, avoid=through)
                 why = f"{member} is applied at line {line} on a path on which the per-sample generator was not " \
@@ -316,7 +321,12 @@ class SeededApplication:
         if key in _stack or depth > 4:
             return [], False
         fa = fa_of(self.prog, fi).prune(assume)
+        if depth == 0:
+            self.summary_undecided = False
+        self.fwd._undecided_guards = []
         removed, narrow = self.fwd.guard_edges(fa, member, needed)
+        if self.fwd._undecided_guards and not narrow:
+            self.summary_undecided = True
         alias_members = [Member(lst, "elem") for lst, attrs in self.own.types.aliases(C).items()
                          if member.kind == "attr" and member.attr in attrs]
         for am in alias_members:
